@@ -275,7 +275,7 @@ fn random_read_case(rng: &mut Rng, rep: &mut Report) {
             "interrupted_subset"
         }
         3 => {
-            let kind = *rng.pick(&[io::ErrorKind::Other, io::ErrorKind::TimedOut, io::ErrorKind::BrokenPipe, io::ErrorKind::WouldBlock, io::ErrorKind::UnexpectedEof]);
+            let kind = *rng.pick(&crate::doubles::HARD_KINDS);
             faults.push((rng.usize(n + 1), ReadFault::Fail(kind), usize::MAX));
             if rng.bool() {
                 faults.insert(0, (rng.usize(n + 1), ReadFault::Interrupted, 1));
@@ -316,6 +316,7 @@ fn exhaustive_read(which: usize, rep: &mut Report) {
             (ReadFault::Interrupted, 3, "interrupted_each_position"),
             (ReadFault::Fail(io::ErrorKind::Other), usize::MAX, "hard_error_each_position"),
             (ReadFault::Fail(io::ErrorKind::TimedOut), usize::MAX, "hard_error_each_position"),
+            (ReadFault::Fail(io::ErrorKind::UnexpectedEof), usize::MAX, "hard_error_each_position"),
             (ReadFault::Eof, 1, "eof_each_position"),
         ] {
             for frag in [vec![], (1..n).collect::<Vec<usize>>()] {
@@ -459,6 +460,8 @@ fn exhaustive_write(rep: &mut Report) {
                 for (act, label) in [
                     (WriteAct::Fail(io::ErrorKind::Other), "hard_error_each_call"),
                     (WriteAct::Fail(io::ErrorKind::BrokenPipe), "hard_error_each_call"),
+                    (WriteAct::Fail(io::ErrorKind::UnexpectedEof), "hard_error_each_call"),
+                    (WriteAct::Fail(io::ErrorKind::WriteZero), "hard_error_each_call"),
                     (WriteAct::Zero, "zero_each_call"),
                     (WriteAct::Interrupted, "interrupted_each_call"),
                 ] {
@@ -483,7 +486,7 @@ fn random_write_case(rng: &mut Rng, rep: &mut Report) {
         script.push(match rng.below(12) {
             0 => WriteAct::Interrupted,
             1 if rng.chance(1, 3) => WriteAct::Zero,
-            2 if rng.chance(1, 3) => WriteAct::Fail(*rng.pick(&[io::ErrorKind::Other, io::ErrorKind::TimedOut, io::ErrorKind::BrokenPipe])),
+            2 if rng.chance(1, 3) => WriteAct::Fail(*rng.pick(&crate::doubles::HARD_KINDS)),
             _ => WriteAct::Accept(1 + rng.usize(9)),
         });
     }
@@ -509,7 +512,7 @@ fn random_write_session(rng: &mut Rng, rep: &mut Report) {
         script.push(match rng.below(14) {
             0 => WriteAct::Interrupted,
             1 if rng.chance(1, 2) => WriteAct::Zero,
-            2 if rng.chance(1, 2) => WriteAct::Fail(*rng.pick(&[io::ErrorKind::Other, io::ErrorKind::TimedOut, io::ErrorKind::BrokenPipe])),
+            2 if rng.chance(1, 2) => WriteAct::Fail(*rng.pick(&crate::doubles::HARD_KINDS)),
             _ => WriteAct::Accept(1 + rng.usize(40)),
         });
     }
